@@ -253,12 +253,42 @@ FORBIDDEN = re.compile(r"\b(Admitted|admit|Axiom|Axioms|Parameter|Parameters|Con
                        r"Unset\s+Guard|bypass_check|Admit\s+Obligations|Hypothesis|Hypotheses|Variable|Variables)\b")
 
 
-def scan_forbidden():
-    """grep the development for forbidden commands (Variable/Hypothesis allowed inside Sections only)."""
+def dep_closure(files):
+    """the .v files (relative to coq/) that the given ones depend on through  From LY Require Import/Export  lines,
+    themselves included"""
+    todo = list(files)
+    seen = []
+    while todo:
+        f = todo.pop()
+        if f in seen or not os.path.exists(os.path.join(COQ, f)):
+            continue
+        seen.append(f)
+        txt = open(os.path.join(COQ, f)).read()
+        txt = re.sub(r"\(\*.*?\*\)", " ", txt, flags=re.S)
+        for m in re.finditer(r"From\s+LY\s+Require\s+(?:Import|Export)?\s*([^.]*(?:\.[A-Za-z_][^.]*)*)\.\s", txt):
+            for name in m.group(1).split():
+                todo.append(name.replace(".", "/") + ".v")
+    return sorted(seen)
+
+
+def property_files(pid, slices_=()):
+    """Properties_<pid>*.v, the Extract_<slice>.v of the slices whose extracted models the property's correspondence
+    runs, and everything they import"""
+    import glob
+    fns = sorted(os.path.basename(p) for p in glob.glob(os.path.join(COQ, "Properties_%s*.v" % pid)))
+    fns += ["Extract_%s.v" % s for s in sorted(set(slices_))]
+    return fns, dep_closure(fns)
+
+
+def scan_forbidden(only=None):
+    """grep the development (or the given files) for forbidden commands (Variable/Hypothesis allowed inside
+    Sections only)."""
     bad = []
     for root, _, fs in os.walk(COQ):
         for f in fs:
             if not f.endswith(".v"):
+                continue
+            if only is not None and os.path.relpath(os.path.join(root, f), COQ) not in only:
                 continue
             depth = 0
             txt = open(os.path.join(root, f)).read()
@@ -308,7 +338,7 @@ def _check_properties_one(fn):
     with Lock("coq"):
         rc, out = sh(["coqc", "-Q", ".", "LY", fn], cwd=COQ, timeout=1800)
     res["output"] = out
-    src = open(path).read()
+    src = re.sub(r"\(\*.*?\*\)", " ", open(path).read(), flags=re.S)
     names = re.findall(r"^\s*(?:Theorem|Lemma|Corollary)\s+([A-Za-z0-9_']+)", src, flags=re.M)
     printed = re.findall(r"^\s*Print Assumptions\s+([A-Za-z0-9_'.]+)\s*\.", src, flags=re.M)
     # split output per Print Assumptions (in order)
